@@ -231,6 +231,20 @@ def build_registry(darsia, rng):
     add("threshold_array", [arr2], lambda: darsia.StaticThresholdModel(0.3, 0.8)(arr2))
     msk = arr2 > 0.2
     add("threshold_mask", [arr2, msk], lambda: darsia.StaticThresholdModel(0.3, 0.8)(arr2, msk))
+    # label-wise thresholds given as arrays (and inside an options dictionary); the dynamic variants re-calibrate
+    # their thresholds on every evaluation
+    tlab = (np.arange(arr2.size).reshape(arr2.shape) % 2).astype(int)
+    for ti, tmeth in enumerate(["otsu", "tailored global min", "tailored otsu"]):
+        tlo, thi = np.array([0.05, 0.1]), np.array([0.9, 0.8])
+        topts = {"threshold dynamic": True, "threshold method": tmeth, "threshold value min": tlo, "threshold value max": thi}
+
+        def dyn(topts=topts):
+            m_ = darsia.ThresholdModel(tlab, **topts)
+            return m_(arr2), m_(np.sqrt(arr2))
+
+        add(f"threshold_dynamic_labelwise_{ti}", [arr2, tlab, tlo, thi, topts], dyn)
+    slo, shi = np.array([0.2, 0.3]), np.array([0.7, 0.9])
+    add("threshold_static_labelwise_arrays", [arr2, tlab, slo, shi], lambda: darsia.StaticThresholdModel(slo, shi, tlab)(arr2))
     # ---- measures
     geo = darsia.Geometry(**A.shape_metadata())
     add("integrate_image", [A], lambda: geo.integrate(A))
